@@ -348,10 +348,33 @@ pub fn mutate_text(src: &str, tape: &[u32]) -> String {
     out
 }
 
+/// does this mutation make the feed wrong in shape or type (so that the load has to report it)?
+/// Mirrors the choices of `mutate_json` on the same tape.
+pub fn json_mutation_must_be_refused(tape: &[u32]) -> Option<&'static str> {
+    let mut t = Tape::new(tape);
+    match t.pick(16) {
+        10 | 11 | 12 => Some("an entry that refers to itself (dependency cycle)"),
+        13 | 14 | 15 => Some("one extra entry of the wrong type or shape among valid ones"),
+        2 => Some("top level is an object"),
+        4 => Some("top level is null"),
+        5 => Some("entries are numbers"),
+        6 => Some("an entry whose name is a number"),
+        8 => match t.pick(6) {
+            2 => Some("unknown type tag"),
+            3 => Some("type tag is a number"),
+            4 => Some("type tag is null"),
+            5 => Some("a unit entry retyped as substance (required fields missing)"),
+            _ => None,
+        },
+        9 => Some("required field `expr` missing"),
+        _ => None,
+    }
+}
+
 /// mutate the currency JSON
 pub fn mutate_json(src: &str, tape: &[u32]) -> String {
     let mut t = Tape::new(tape);
-    match t.pick(13) {
+    match t.pick(16) {
         10 | 11 | 12 => {
             // entries that redefine an existing name in terms of itself (the feed is loaded into a
             // context that already holds the core definitions), or two feed names in terms of each other
@@ -369,6 +392,27 @@ pub fn mutate_json(src: &str, tape: &[u32]) -> String {
             match src.find('[') {
                 Some(i) => format!("{}{}{}", &src[..=i], extra, &src[i + 1..]),
                 None => src.to_string(),
+            }
+        }
+        13 | 14 | 15 => {
+            // one confused entry that nothing depends on, the rest of the feed intact
+            let bad = [
+                "{\"name\":\"zzq\",\"doc\":null,\"category\":null,\"type\":7,\"expr\":\"1\"}",
+                "{\"name\":\"zzq\",\"doc\":null,\"category\":null,\"type\":\"unit\",\"expr\":1.0852}",
+                "{\"name\":\"zzq\",\"doc\":null,\"category\":null,\"type\":\"unit\"}",
+                "{\"doc\":null,\"category\":null,\"type\":\"unit\",\"expr\":\"1\"}",
+                "{\"name\":\"zzq\",\"doc\":null,\"category\":null,\"type\":\"nonsense\",\"expr\":\"1\"}",
+                "{\"name\":[\"zzq\"],\"doc\":null,\"category\":null,\"type\":\"unit\",\"expr\":\"1\"}",
+                "7",
+                "\"zzq\"",
+                "null",
+                "[]",
+            ][t.pick(10)];
+            let at_end = t.chance(50);
+            match (src.find('['), src.rfind(']'), at_end) {
+                (_, Some(j), true) => format!("{},{}{}", &src[..j], bad, &src[j..]),
+                (Some(i), _, _) => format!("{}{},{}", &src[..=i], bad, &src[i + 1..]),
+                _ => src.to_string(),
             }
         }
         0 => {
@@ -623,6 +667,16 @@ pub fn check(env: &Env, c: &Case, st: &mut Stats) -> CaseResult {
                 None => return Ok(()),
             };
             st.class(if r["ok"].as_bool() == Some(true) { "currency_accepted" } else { "currency_refused" });
+            if let Some(why) = json_mutation_must_be_refused(tape) {
+                st.class("currency_feed_wrong_in_shape_or_type");
+                if r["ok"].as_bool() == Some(true) {
+                    return Err(format!(
+                        "[currency-problem-not-reported] the feed was made wrong ({}), but load_currency returned Ok(()) without a message; feed starts: {}",
+                        why,
+                        js.chars().take(200).collect::<String>()
+                    ));
+                }
+            }
             for q in ["3 foot -> m", "1 EUR", "USD", "1 + 1", "foot", "meter", "kg", "inch", "hour", "loopb"] {
                 match call(env, st, &json!({"cmd": "eval", "line": q, "save_prev": false, "pinned": true}), &format!("`{}` after {}", q, what))? {
                     Some(v) => {
